@@ -1,10 +1,26 @@
 //! src/style/available_space.rs  →  Generated/AvailableSpace.lean
-use crate::emit::{check_adt, impl_items, impls, Out};
+use crate::emit::{check_adt, impl_items, impls, ImplInfo, Out};
 use crate::lean::{Ty, World};
 use crate::util::{parse_file, CfgEnv};
 use std::collections::HashMap;
+use syn::ImplItem;
 
-pub const REQUIRED: &[&str] = &["is_roughly_equal", "into_option", "maybe_set", "is_definite", "unwrap_or"];
+pub const REQUIRED: &[&str] = &["is_roughly_equal", "into_option", "maybe_set", "is_definite", "unwrap_or", "TaffyMaxContent_MAX_CONTENT", "Size.TaffyMaxContent_MAX_CONTENT"];
+
+/// the associated constants of one `impl Trait for X` block, registered as `Trait::NAME`
+fn trait_consts(out: &mut Out, w: &mut World, info: &ImplInfo, env: &CfgEnv, head: &str, tr: &str, prefix: &str, self_ty: Ty, generics: &HashMap<String, Ty>) -> Result<(), String> {
+    for ii in info.items {
+        if let ImplItem::Const(c) = ii {
+            if env.enabled(&c.attrs)? {
+                let name = c.ident.to_string();
+                let lean_rel = format!("{prefix}{tr}_{name}");
+                let req = REQUIRED.contains(&lean_rel.as_str());
+                out.constant(w, head, &format!("<{tr}>::{name}"), &format!("{tr}::{name}"), &lean_rel, Some(self_ty.clone()), generics.clone(), &c.ty, &c.expr, req);
+            }
+        }
+    }
+    Ok(())
+}
 
 pub fn extract(repo: &str, w: &mut World) -> Result<String, String> {
     let file = parse_file(&format!("{repo}/src/style/available_space.rs"))?;
@@ -21,6 +37,27 @@ pub fn extract(repo: &str, w: &mut World) -> Result<String, String> {
         if info.trait_.is_none() && info.self_ty == "Size<AvailableSpace>" {
             let st = Ty::adt("Size", vec![Ty::adt("AvailableSpace", vec![])]);
             impl_items(&mut out, w, info, &env, "Size", Some(st), &HashMap::new(), "Size.", &[], &[])?;
+        }
+    }
+    // `TaffyMaxContent` / `TaffyMinContent` for `AvailableSpace`, and the `Size<T>` impl of src/style_helpers.rs at `T = AvailableSpace`
+    // (`LayoutInput::HIDDEN` uses `Size::MAX_CONTENT`)
+    let av = Ty::adt("AvailableSpace", vec![]);
+    for info in &v {
+        if let (Some(tr), "AvailableSpace") = (info.trait_.as_deref(), info.self_ty.as_str()) {
+            if tr == "TaffyMaxContent" || tr == "TaffyMinContent" {
+                trait_consts(&mut out, w, info, &env, "AvailableSpace", tr, "", av.clone(), &HashMap::new())?;
+            }
+        }
+    }
+    let sh = parse_file(&format!("{repo}/src/style_helpers.rs"))?;
+    let mut v2 = vec![];
+    impls(&sh.items, &env, &[], &mut v2)?;
+    let g: HashMap<String, Ty> = [("T".to_string(), av.clone())].into_iter().collect();
+    for info in &v2 {
+        if let (Some(tr), "Size<T>") = (info.trait_.as_deref(), info.self_ty.as_str()) {
+            if tr == "TaffyMaxContent" || tr == "TaffyMinContent" {
+                trait_consts(&mut out, w, info, &env, "Size", tr, "Size.", Ty::adt("Size", vec![av.clone()]), &g)?;
+            }
         }
     }
     out.finish(REQUIRED)
